@@ -53,8 +53,16 @@ def run_script(mode):
 def validate(run):
     """once per process; records the outcome in the evidence and raises an engine error on disagreement"""
     if "r" not in _done:
-        a, ta, da = run_script("model")
-        b, tb, db = run_script("passthrough")
+        try:
+            a, ta, da = run_script("model")
+            b, tb, db = run_script("passthrough")
+        except Exception as e:   # noqa
+            if type(e).__name__ in ("LearnFailed", "Aliasing"):
+                # the code under test fails the plain calls by which addresses are observed: the checks report that
+                # themselves (as a violation, after native confirmation); the battery has nothing to compare
+                run.witnesses.append("model validation not run: %s" % str(e)[:200])
+                return True
+            raise
         diff = [(x[0], x[1:], y[1:]) for x, y in zip(a, b) if x != y]
         ok = not diff and ta == tb and da == db
         _done["r"] = (ok, len(a), sum(len(x[2]) for x in a), diff[:2], sorted(set(ta) ^ set(tb))[:3])
